@@ -49,6 +49,18 @@ Children(sch, it, unroll, isRoot) ==
 
 IsComposite(it, unroll) == it.t.k = "struct" \/ (it.t.k = "arr" /\ unroll)
 
+(* a leaf item whose width the encoder can compute (_get_type_length): scalars and arrays of them; a struct below an array
+   that is not unrolled, a string, a dynamic array or an optional make the call raise - the binding is refused *)
+RECURSIVE Measurable(_)
+Measurable(t) == CASE t.k \in {"u", "i", "f32", "f64", "enum"} -> TRUE
+                   [] t.k = "arr" -> Measurable(t.t)
+                   [] OTHER -> FALSE
+RECURSIVE AllMeasurable(_, _, _)
+AllMeasurable(sch, unroll, work) ==
+    IF work = <<>> THEN TRUE
+    ELSE IF IsComposite(work[1], unroll) THEN AllMeasurable(sch, unroll, Children(sch, work[1], unroll, FALSE) \o Tail(work))
+    ELSE Measurable(work[1].t) /\ AllMeasurable(sch, unroll, Tail(work))
+
 RECURSIVE Walk(_, _, _, _, _)
 (* work: stack of items; acc: leaves so far *)
 Walk(sch, impl, unroll, work, acc) ==
@@ -63,6 +75,10 @@ RootItem(impl) == Item(StructT(impl.type), "", "", "", <<>>)
 
 LayoutOf(sch, impl, unroll) ==
     Walk(sch, impl, unroll, Children(sch, RootItem(impl), unroll, TRUE), <<>>)
+
+(* the bindings generate() lays out; every other binding makes it raise *)
+Layable(sch, impl, unroll) ==
+    HasName(sch.structs, impl.type) /\ AllMeasurable(sch, unroll, Children(sch, RootItem(impl), unroll, TRUE))
 
 LayoutBits(lay) == IF lay = <<>> THEN 0 ELSE lay[Len(lay)].start + lay[Len(lay)].len
 
